@@ -52,6 +52,7 @@ pub struct Probes {
     pub time_dependent_legs: u64,
     pub time_dependent_tolerance_exhausted: u64,
     pub reported_starts_judged: u64,
+    pub time_dependent_distance_ambiguous: u64,
 }
 
 impl Probes {
@@ -61,7 +62,7 @@ impl Probes {
             tours, activities, multi_activity_stops, waiting_acts, tw_tight, cap_tight, dist_limit_tight,
             dur_limit_tight, size_limit_tight, reload_acts, break_acts, tours_too_ambiguous, multi_jobs_assigned, unassigned,
             skipped_time_replay, tags_checked, order_checked, groups_checked, compat_checked, skills_checked,
-            unreachable_checked, relations_checked, resources_checked, shift_latest_tight, open_tours, clustered_acts, recharge_acts, recharge_limit_tight, time_dependent_legs, time_dependent_tolerance_exhausted, reported_starts_judged
+            unreachable_checked, relations_checked, resources_checked, shift_latest_tight, open_tours, clustered_acts, recharge_acts, recharge_limit_tight, time_dependent_legs, time_dependent_tolerance_exhausted, reported_starts_judged, time_dependent_distance_ambiguous
         );
     }
     pub fn to_json(&self) -> serde_json::Value {
@@ -70,7 +71,7 @@ impl Probes {
             tours, activities, multi_activity_stops, waiting_acts, tw_tight, cap_tight, dist_limit_tight,
             dur_limit_tight, size_limit_tight, reload_acts, break_acts, tours_too_ambiguous, multi_jobs_assigned, unassigned,
             skipped_time_replay, tags_checked, order_checked, groups_checked, compat_checked, skills_checked,
-            unreachable_checked, relations_checked, resources_checked, shift_latest_tight, open_tours, clustered_acts, recharge_acts, recharge_limit_tight, time_dependent_legs, time_dependent_tolerance_exhausted, reported_starts_judged
+            unreachable_checked, relations_checked, resources_checked, shift_latest_tight, open_tours, clustered_acts, recharge_acts, recharge_limit_tight, time_dependent_legs, time_dependent_tolerance_exhausted, reported_starts_judged, time_dependent_distance_ambiguous
         )
     }
 }
@@ -555,6 +556,7 @@ fn check_tour_inner(m: &PModel, ti: usize, t: &STour, assign: &BTreeMap<usize, u
     let mut tcur = dep0 as f64;
     let mut prev_loc = shift.start_loc;
     let mut cum_dist: i64 = 0;
+    let mut dist_ambiguous = false;
     let mut driving: i64 = 0;
     let mut serving: i64 = 0;
     let mut waiting: i64 = 0;
@@ -678,6 +680,12 @@ fn check_tour_inner(m: &PModel, ti: usize, t: &STour, assign: &BTreeMap<usize, u
         // (time-dependent routing: the leg is priced at the time it is left)
         let raw_dur = mx.duration(prev_loc, loc, tcur);
         let raw_dist = mx.distance(prev_loc, loc, tcur);
+        if time_dependent && !dist_ambiguous && (mx.distance(prev_loc, loc, tcur - tol) != raw_dist || mx.distance(prev_loc, loc, tcur + tol) != raw_dist) {
+            // the leg is left within the replay's tolerance of a matrix timestamp: which slice prices its distance cannot be
+            // told from the document; distances of this tour are not judged from here on (counted)
+            dist_ambiguous = true;
+            probes.time_dependent_distance_ambiguous += 1;
+        }
         let flagged = mx.flagged(prev_loc, loc);
         if !mx.slices.is_empty() {
             probes.time_dependent_legs += 1;
@@ -825,7 +833,7 @@ fn check_tour_inner(m: &PModel, ti: usize, t: &STour, assign: &BTreeMap<usize, u
                 since_recharge = 0;
             }
         }
-        if f.first_in_stop && !unsupported && f.stop.distance != cum_dist {
+        if f.first_in_stop && !unsupported && !dist_ambiguous && f.stop.distance != cum_dist {
             issue(out, S, "stop-distance", format!("tour {ti} stop {}: reported distance {} recomputed {}", f.stop_idx, f.stop.distance, cum_dist));
         }
         // statistic parts (same truncation per leg as the writer)
@@ -963,7 +971,7 @@ fn check_tour_inner(m: &PModel, ti: usize, t: &STour, assign: &BTreeMap<usize, u
             if (cum_dist as f64 - limit).abs() <= 1.0 {
                 probes.dist_limit_tight += 1;
             }
-            if cum_dist as f64 > limit {
+            if cum_dist as f64 > limit && !dist_ambiguous {
                 issue(out, F, "max-distance", format!("tour {ti} ({}): distance {} exceeds maxDistance {}", t.vehicle_id, cum_dist, limit));
             }
         }
@@ -978,7 +986,7 @@ fn check_tour_inner(m: &PModel, ti: usize, t: &STour, assign: &BTreeMap<usize, u
                 }
             }
         }
-        if t.stat.distance != cum_dist {
+        if t.stat.distance != cum_dist && !dist_ambiguous {
             issue(out, S, "tour-distance", format!("tour {ti}: statistic distance {} recomputed {}", t.stat.distance, cum_dist));
         }
         if time_ok {
@@ -990,7 +998,7 @@ fn check_tour_inner(m: &PModel, ti: usize, t: &STour, assign: &BTreeMap<usize, u
             if (t.stat.driving - driving).abs() > if time_dependent { n_acts } else { 0 } {
                 issue(out, S, "tour-driving", format!("tour {ti}: statistic driving {} recomputed {}", t.stat.driving, driving));
             }
-            if t.stat.serving != serving {
+            if (t.stat.serving - serving).abs() > if time_dependent { wtol } else { 0 } {
                 issue(out, S, "tour-serving", format!("tour {ti}: statistic serving {} recomputed {}", t.stat.serving, serving));
             }
             if (t.stat.waiting - waiting).abs() > wtol {
@@ -1001,11 +1009,11 @@ fn check_tour_inner(m: &PModel, ti: usize, t: &STour, assign: &BTreeMap<usize, u
             }
             let want = vt.fixed + cost;
             let ctol = 1e-6 * want.abs().max(1.0) + if m.fractional { vt.ct * (n_acts as f64 + 1.0) * if time_dependent { 2.0 } else { 1.0 } } else { 0.0 };
-            if (t.stat.cost - want).abs() > ctol {
+            if (t.stat.cost - want).abs() > ctol && !dist_ambiguous {
                 issue(out, S, "tour-cost", format!("tour {ti}: statistic cost {} recomputed {}", t.stat.cost, want));
             }
             // cost == fixed + d*cd + T*ct
-            let closed = vt.fixed + cum_dist as f64 * vt.cd + total_duration * vt.ct;
+            let closed = vt.fixed + (if dist_ambiguous { t.stat.distance } else { cum_dist }) as f64 * vt.cd + total_duration * vt.ct;
             if (t.stat.cost - closed).abs() > ctol + 1e-6 * closed.abs() + vt.ct * 2.0 {
                 issue(out, S, "tour-cost-closed-form", format!("tour {ti}: statistic cost {} but fixed + d*cd + T*ct = {}", t.stat.cost, closed));
             }
